@@ -109,7 +109,7 @@ class C03(core.Check):
             return self._run_impl(case, urwid, text_layout, enc, res)
         except Hang:
             self._hangs = hangs + 1
-            for k in ("layout", "rows", "pack", "pack0", "render"):
+            for k in ("layout", "rows", "pack", "pack0", "rows0", "render0", "render"):
                 res.setdefault(k, "Err:DoesNotTerminate")
             return res
         finally:
@@ -159,6 +159,19 @@ class C03(core.Check):
                 res["pack0"] = list(urwid.Text(raw, align=align, wrap=wrap).pack(()))
             except Exception as e:       # noqa: BLE001
                 res["pack0"] = "Err:" + type(e).__name__
+            # natural (FIXED) size: pack(()) reports (cols, rows); render(()) lays the text out at cols
+            try:
+                if isinstance(res["pack0"], list):
+                    res["rows0"] = urwid.Text(raw, align=align, wrap=wrap).rows((res["pack0"][0],))
+                else:
+                    res["rows0"] = res["pack0"]
+            except Exception as e:       # noqa: BLE001
+                res["rows0"] = "Err:" + type(e).__name__
+            try:
+                canv0 = urwid.Text(raw, align=align, wrap=wrap).render(())
+                res["render0"] = [[ord(c) for c in row.decode(enc, "surrogateescape")] for row in canv0.text]
+            except Exception as e:       # noqa: BLE001
+                res["render0"] = "Err:" + type(e).__name__
             try:
                 canv = t.render((w,))      # the same widget: rows(), pack() and render() share the cached layout
                 res["render"] = [[ord(c) for c in row.decode(enc, "surrogateescape")] for row in canv.text]
@@ -226,6 +239,8 @@ class C03(core.Check):
             res["pack"] = part(lambda: [next(it), next(it)])
             res["pack0"] = part(lambda: [next(it), next(it)])
             res["render"] = part(lambda: [lst() for _ in range(next(it))])
+            res["rows0"] = part(lambda: next(it))
+            res["render0"] = part(lambda: [lst() for _ in range(next(it))])
             return res
         except StopIteration:
             return {"malformed": ints[:60]}
@@ -253,6 +268,22 @@ class C03(core.Check):
             msgs.append(f"pack() reports {res['pack'][1]} rows but render produced {len(res['render'])} rows")
         if len(lay) != len(res["render"]):
             msgs.append(f"layout has {len(lay)} lines but render produced {len(res['render'])} rows")
+
+        # natural size: the row count pack(()) reports for its column count = the lines rendered at that width
+        p0, r0, n0 = res.get("pack0"), res.get("render0"), res.get("rows0")
+        if isinstance(p0, list):
+            if isinstance(r0, list) and len(r0) != p0[1]:
+                msgs.append(f"pack(()) reports {p0[1]} rows at its natural width {p0[0]} but render(()) produced {len(r0)} rows")
+            if isinstance(n0, int) and n0 != p0[1]:
+                msgs.append(f"pack(()) reports {p0[1]} rows at its natural width {p0[0]} but rows(({p0[0]},)) is {n0}")
+            if isinstance(r0, list) and p0[0] >= 1:
+                for r, row in enumerate(r0):
+                    if self.str_width(row, case) > p0[0]:
+                        msgs.append(f"render(()) row {r} is wider than the natural width {p0[0]}")
+            if p0[0] >= 1 and (isinstance(r0, str) or isinstance(n0, str)):
+                msgs.append(f"render(()) / rows at the natural width {p0[0]} raised {r0 if isinstance(r0, str) else n0}")
+        elif isinstance(p0, str):
+            msgs.append(f"pack(()) raised {p0[4:]}")
 
         # every rendered row fits (TextCanvas pads it to exactly the width)
         ell = ellipsis_for(case["enc"])
@@ -616,7 +647,7 @@ class C03(core.Check):
         return "".join(out[:n])
 
     def random_cases(self, rng, count):
-        pool = {"letters": "abcdefgxyz", "wide": "世界あＡ", "zero": "́̈​"}
+        pool = {"letters": "abcdefgxyz", "wide": "世界あＡ\U0001F600\U00020000", "zero": "́̈​\u2028\x0c\r"}
         for _ in range(count):
             n = rng.choice([5, 7, 8, 10, 12, 16, 24, 40])
             text = self.random_text(rng, pool, n)
@@ -629,7 +660,7 @@ class C03(core.Check):
             n = rng.choice([0, 1, 2, 3, 4, 5, 6, 8, 12, 20])
             kind = rng.choice(["utf8b", "eucjp", "eucjp_str", "ascii", "ascii_str"])
             if kind == "utf8b":
-                pool = "ab \n世́x"
+                pool = "ab \n世́x\U0001F600\U00020000\u2028\r"
                 enc, mode = "utf-8", "bytes"
             elif kind in ("eucjp", "eucjp_str"):
                 pool = "ab \n世あx"
@@ -638,12 +669,53 @@ class C03(core.Check):
                 pool = "ab \nxyz "
                 enc, mode = "ascii", ("bytes" if kind == "ascii" else "str")
             text = "".join(rng.choice(pool) for _ in range(n))
+            if kind == "utf8b" and n and rng.random() < 0.4:
+                text = text[:-1] + rng.choice(self.FOURBYTE)       # end in a 4-byte sequence
             if enc == "euc-jp" and mode == "str":
                 # the str width function is wcwidth whatever the encoding; keep to characters whose width equals their byte count
                 pass
             yield self.mk(text, rng.choice([1, 2, 3, 4, 5, 7, 9]), rng.choice(WRAPS), rng.choice(ALIGNS), enc, mode)
 
+    SEPS = ["\u2028", "\u2029", "\x0c", "\x0b", "\r", "\x85", "\x1c", "\x1d", "\x1e"]   # str.splitlines() boundaries other than \n
+
+    def separator_cases(self, rng, full):
+        """characters that str.splitlines() treats as line boundaries but the layout does not (only \n starts a
+        line): they are ordinary characters of a line; natural size, rows and rendered rows must stay consistent"""
+        templates = ["ab{s}cdef", "ab\ncd{s}efgh\nxyz", "{s}", "a{s}", "{s}a\nb", "abc def{s}ghi jk\nl", "x\n{s}\ny{s}{s}z", "世{s}世 a"]
+        for sep in self.SEPS:
+            for tpl in templates:
+                text = tpl.replace("{s}", sep)
+                nat = max(sum(_wc(c) for c in ln) for ln in text.split("\n"))
+                widths = sorted({max(1, nat), max(1, nat - 1), 2} | ({1, 3, nat + 2} if full else set()))
+                for w in widths:
+                    for wrap in WRAPS:
+                        for al in (ALIGNS if full else ["left", rng.choice(["center", "right"])]):
+                            yield self.mk(text, w, wrap, al)
+                        yield self.mk(text, w, wrap, "left", "utf-8", "bytes")
+
+    FOURBYTE = ["\U0001F600", "\U00020000"]       # 4-byte UTF-8 sequences (emoji, CJK extension B), 2 columns
+
+    def fourbyte_tail_cases(self, rng, full):
+        """utf-8 text (bytes and str) whose LAST character is a 4-byte sequence, at every width that makes the last
+        line overflow (the final character has to be measured by the position scan)"""
+        heads = [""]
+        for n in range(1, 4 if full else 3):
+            heads += ["".join(tp) for tp in itertools.product(["a", " ", "世", "́", "\n"], repeat=n)]
+        for head in heads:
+            for tail in (self.FOURBYTE[0], self.FOURBYTE[1], "a" + self.FOURBYTE[0], self.FOURBYTE[0] * 2,
+                         self.FOURBYTE[1] + "́" if full else self.FOURBYTE[0]):
+                text = head + tail
+                total = max(sum(_wc(c) for c in ln) for ln in text.split("\n"))
+                for w in range(1, min(total, 7) + 1):
+                    for wrap in WRAPS:
+                        yield self.mk(text, w, wrap, "left", "utf-8", "bytes")
+                        if full or w % 2:
+                            yield self.mk(text, w, wrap, rng.choice(["center", "right"]), "utf-8", "bytes")
+                            yield self.mk(text, w, wrap, "left")
+
     def cases(self, rng, tier):
+        yield from self.separator_cases(rng, tier != "quick")
+        yield from self.fourbyte_tail_cases(rng, tier != "quick")
         if tier == "quick":
             for n in range(0, 4):
                 yield from self.exhaustive(n)
